@@ -598,7 +598,9 @@ class PGMCompiler:
 
         file = self._get_filepath(filename=filename, extension='pgm')
         self._instructions.append(f'PROGRAM {int(task_id)} LOAD "{file}"\n')
-        self._loaded_files.append(file.stem)
+        # loading is idempotent on the controller: a single REMOVEPROGRAM unloads the program however often it was loaded
+        if file.stem not in self._loaded_files:
+            self._loaded_files.append(file.stem)
 
     def remove_program(self, filename: str, task_id: int = 2) -> None:
         """Remove program from memory buffer.
